@@ -6,6 +6,19 @@ use crate::engine::{Avx2, Ssse3};
 #[cfg(target_arch = "aarch64")]
 use crate::engine::Neon;
 
+// Under `verif-hooks` runtime detection is ANDed with a settable mask.
+#[cfg(all(feature = "verif-hooks", any(target_arch = "x86", target_arch = "x86_64")))]
+macro_rules! is_x86_feature_detected {
+    ("avx2") => {
+        (crate::verif_hooks::allowed(crate::verif_hooks::ISA_AVX2)
+            && std::is_x86_feature_detected!("avx2"))
+    };
+    ("ssse3") => {
+        (crate::verif_hooks::allowed(crate::verif_hooks::ISA_SSSE3)
+            && std::is_x86_feature_detected!("ssse3"))
+    };
+}
+
 // ======================================================================
 // DefaultEngine - PUBLIC
 
